@@ -1109,7 +1109,18 @@ static size_t ares_calc_query_timeout(const ares_query_t   *query,
    * retry from the last retry */
   rounds = (query->try_count / num_servers);
   if (rounds > 0) {
-    timeplus <<= rounds;
+    /* Saturate rather than shift bits out (or shift by the word size or more,
+     * which is undefined) when there is a large number of tries.  The bound
+     * keeps the value representable as a signed number of milliseconds, which
+     * is how it gets added to the clock. */
+    const size_t max_timeplus = SIZE_MAX >> 1;
+
+    if (rounds >= sizeof(timeplus) * 8 ||
+        timeplus > (max_timeplus >> rounds)) {
+      timeplus = max_timeplus;
+    } else {
+      timeplus <<= rounds;
+    }
   }
 
   if (channel->maxtimeout && timeplus > channel->maxtimeout) {
